@@ -56,9 +56,17 @@ def variations(g, table, chans, SR, M):
     vs = []
     if r.random() < 0.25:
         # duration of the first segment, on all channels alike
-        n = r.sample(range(2, 30), M)
-        for ch in chans:
-            vs.append({"chan": ch, "name": table[ch][0][0], "arg": enc("duration"), "vals": [enc(x / SR) for x in n]})
+        if r.random() < 0.3:
+            n = r.sample(range(2, 30), M)      # the same new duration everywhere: valid only if the first segments were alike
+            for ch in chans:
+                vs.append({"chan": ch, "name": table[ch][0][0], "arg": enc("duration"), "vals": [enc(x / SR) for x in n]})
+        else:
+            # every channel's first segment grows by the same number of samples: valid as a whole, invalid after
+            # any single channel's change
+            delta = r.sample(range(0, 20), M)
+            for ch in chans:
+                vs.append({"chan": ch, "name": table[ch][0][0], "arg": enc("duration"),
+                           "vals": [enc((table[ch][0][2] + x) / SR) for x in delta]})
         return vs
     for _ in range(r.randint(1, 3)):
         ch = r.choice(chans)
